@@ -67,6 +67,7 @@ type ptr struct {
 	structs  map[string]*types.Struct
 	extra    []string // helper definitions translated on demand, to be emitted before the definition in progress
 	depth    int
+	methods  map[string]*methodInfo // methods already translated: Type.name -> shape
 }
 
 func leanIntType(t types.Type) (string, bool) {
@@ -364,6 +365,19 @@ func (t *ptr) call(c *ast.CallExpr) string {
 			return "(" + via + ").to" + to
 		}
 	}
+	if se, ok := c.Fun.(*ast.SelectorExpr); ok {
+		if sel := t.info.Selections[se]; sel != nil && sel.Kind() == types.MethodVal {
+			if sn, ok := t.structName(t.info.TypeOf(se.X)); ok {
+				if m := t.methodOnDemand(sn, se.Sel.Name); m != nil && !m.mutates && m.nres == 1 {
+					var args []string
+					for _, a := range c.Args {
+						args = append(args, t.expr(a))
+					}
+					return "(" + sn + "." + lname(se.Sel.Name) + " " + t.expr(se.X) + " " + strings.Join(args, " ") + ")"
+				}
+			}
+		}
+	}
 	switch f := c.Fun.(type) {
 	case *ast.Ident:
 		if f.Name == "new" && len(c.Args) == 1 {
@@ -536,6 +550,23 @@ func (t *ptr) block(stmts []ast.Stmt, k func() string) string {
 	case *ast.ReturnStmt:
 		return t.ret(x)
 	case *ast.AssignStmt:
+		if len(x.Lhs) > 1 && len(x.Lhs) == len(x.Rhs) && (x.Tok == token.DEFINE || x.Tok == token.ASSIGN) {
+			// parallel assignment: all right-hand sides are evaluated first
+			out := ""
+			var tmps []string
+			for i, r := range x.Rhs {
+				tmp := fmt.Sprintf("par_%d_", i)
+				tmps = append(tmps, tmp)
+				out += fmt.Sprintf("let %s := %s\n", tmp, t.expr(r))
+			}
+			for i, l := range x.Lhs {
+				if id, ok := l.(*ast.Ident); ok && id.Name == "_" {
+					continue
+				}
+				out += t.assignTo(l, tmps[i])
+			}
+			return out + rest()
+		}
 		if len(x.Lhs) != 1 || len(x.Rhs) != 1 {
 			bad("multi-assignment")
 		}
@@ -557,6 +588,10 @@ func (t *ptr) block(stmts []ast.Stmt, k func() string) string {
 		return t.assignTo(x.X, fmt.Sprintf("(%s %s (1 : %s))", t.expr(x.X), op, lt)) + rest()
 	case *ast.DeclStmt:
 		gd, ok := x.Decl.(*ast.GenDecl)
+		if ok && gd.Tok == token.CONST {
+			// local constants are folded into their uses by the type checker
+			return rest()
+		}
 		if !ok || gd.Tok != token.VAR {
 			bad("declaration")
 		}
@@ -617,9 +652,66 @@ func (t *ptr) block(stmts []ast.Stmt, k func() string) string {
 		}
 		kk := func() string { return tuple }
 		return fmt.Sprintf("let %s := if %s then\n%s\nelse\n%s\n%s", tuple, c, indent(t.block(x.Body.List, kk)), indent(t.block(elseList, kk)), rest())
+	case *ast.ExprStmt:
+		// a call of another method of the same type on the receiver, for its effect on the receiver: c.setFlag(ofs)
+		if c, ok := x.X.(*ast.CallExpr); ok {
+			if se, ok := c.Fun.(*ast.SelectorExpr); ok {
+				if id, ok := se.X.(*ast.Ident); ok && t.recvObj != nil && t.info.ObjectOf(id) == t.recvObj {
+					if m := t.methodOnDemand(t.recvType, se.Sel.Name); m != nil && m.mutates && m.nres == 0 {
+						var args []string
+						for _, a := range c.Args {
+							args = append(args, t.expr(a))
+						}
+						t.mutates = true
+						return fmt.Sprintf("let %s := (%s.%s %s %s)\n", t.recvName, t.structLean(t.recvType), lname(se.Sel.Name), t.recvName, strings.Join(args, " ")) + rest()
+					}
+				}
+			}
+		}
+		bad("statement %T %s", s, nodeString(t.p.Fset, s))
 	}
 	bad("statement %T", s)
 	return ""
+}
+
+type methodInfo struct {
+	mutates bool
+	nres    int
+}
+
+// structLean: Lean name of the struct projection of a Go type name of this package
+func (t *ptr) structLean(goName string) string { return goName }
+
+// methodOnDemand makes sure method recv.name is translated (from pureList earlier, or now) and returns its shape.
+func (t *ptr) methodOnDemand(recv, name string) *methodInfo {
+	key := recv + "." + name
+	if mi, ok := t.methods[key]; ok {
+		return mi
+	}
+	if t.depth > 4 {
+		return nil
+	}
+	fd := findFunc(t.p, recv, name)
+	if fd == nil || fd.Body == nil {
+		return nil
+	}
+	saved := *t
+	t.depth++
+	d, err := t.translate(fd, pureSpec{t.p.Types.Name(), recv, name})
+	mi := &methodInfo{mutates: t.mutates}
+	if fd.Type.Results != nil {
+		mi.nres = fd.Type.Results.NumFields()
+	}
+	extra, structs, known, methods := t.extra, t.structs, t.known, t.methods
+	*t = saved
+	t.extra, t.structs, t.known, t.methods = extra, structs, known, methods
+	if err != nil {
+		return nil
+	}
+	t.extra = append(t.extra, d)
+	t.methods[key] = mi
+	rep.Translated = append(rep.Translated, t.p.Types.Name()+"."+key+" (on demand)")
+	return mi
 }
 
 func indent(s string) string {
@@ -711,6 +803,15 @@ func (t *ptr) translate(fd *ast.FuncDecl, sp pureSpec) (def string, err error) {
 				lhs = a.Lhs
 			case *ast.IncDecStmt:
 				lhs = []ast.Expr{a.X}
+			case *ast.ExprStmt:
+				// recv.helper(...) called for its effect on the receiver
+				if c, ok := a.X.(*ast.CallExpr); ok {
+					if se, ok := c.Fun.(*ast.SelectorExpr); ok {
+						if id, ok := se.X.(*ast.Ident); ok && t.recvObj != nil && t.info.ObjectOf(id) == t.recvObj {
+							t.mutates = true
+						}
+					}
+				}
 			}
 			for _, l := range lhs {
 				if se, ok := l.(*ast.SelectorExpr); ok {
@@ -767,7 +868,7 @@ func genPure(pk map[string]*packages.Package) string {
 	sb.WriteString("-- GENERATED by ofvextract from /repo; do not edit.\n-- Transliteration of straight-line integer helpers (Go int = Int64, uintN = UIntN, wrap-around arithmetic).\nimport OFV.Go.Ints\nnamespace OFV.Gen\nopen OFV\n")
 	for _, pn := range pkgNames {
 		p := pk[pn]
-		t := &ptr{p: p, info: p.TypesInfo, known: map[string]bool{}, structs: map[string]*types.Struct{}}
+		t := &ptr{p: p, info: p.TypesInfo, known: map[string]bool{}, structs: map[string]*types.Struct{}, methods: map[string]*methodInfo{}}
 		var defs []string
 		for _, sp := range pureList {
 			if sp.pkg != pn {
@@ -791,6 +892,12 @@ func genPure(pk map[string]*packages.Package) string {
 			}
 			if sp.recv == "" {
 				t.known[sp.name] = true
+			} else {
+				nres := 0
+				if fd.Type.Results != nil {
+					nres = fd.Type.Results.NumFields()
+				}
+				t.methods[sp.recv+"."+sp.name] = &methodInfo{mutates: t.mutates, nres: nres}
 			}
 			rep.Translated = append(rep.Translated, key)
 			defs = append(defs, t.extra...)
